@@ -71,6 +71,18 @@ ReqH     == T.requireH          \* v2 require height of the tree's network
 Eff(b)   == T.eff[b]            \* [creates, spends : sequences of element ids; fc : sequence of contract diffs]
 Heights  == 0..T.maxH
 
+\* ID twins.  A v2 block's ID covers only its header; the body is bound to it by the commitment,
+\* which is checked when the block is APPLIED.  The materialiser therefore also produces nodes that
+\* are a second BODY for the ID of another node (alias[x] = the node whose ID it shares; alias[b] = b
+\* otherwise): same parent, height, header and weight, class "badbody".  The Blocks bucket is keyed
+\* by ID, so at most one member of an ID class is stored at any time: blk[x] # "none" for at most
+\* one x of a class, and that x is the stored body.  States, the best chain, subscribers and
+\* reorg paths are keyed by ID, i.e. name the class representative K(b).
+K(b)      == T.alias[b]
+Class(c)  == {c} \cup {T.twins[c][i] : i \in 1..Len(T.twins[c])}    \* twins[c]: the other bodies of c's ID
+Ver(bk, c) == IF \E x \in Class(c) : bk[x] # "none" THEN CHOOSE x \in Class(c) : bk[x] # "none" ELSE 0
+StoreBody(bk, b, v) == [x \in Nodes |-> IF K(x) = K(b) THEN (IF x = b THEN v ELSE "none") ELSE bk[x]]
+
 Tip == best[Len(best)]
 
 RECURSIVE PathTo(_)
@@ -177,16 +189,18 @@ Init ==
 RECURSIVE HdrLoop(_, _, _, _, _)
 HdrLoop(batch, i, cs, bk, st) ==
     IF i > Len(batch) THEN [cs |-> cs, blk |-> bk, sta |-> st, err |-> "ok"]
-    ELSE LET b == batch[i] IN
-      IF bk[b] = "supp" \/ (~DevResubmitPruned /\ bk[b] = "hdr" /\ st[b] = "full")
-        THEN HdrLoop(batch, i + 1, b, bk, st)                 \* already have this block
+    ELSE LET b == batch[i] c == K(b) v == Ver(bk, c) IN
+      IF v # 0 /\ (bk[v] = "supp" \/ (~DevResubmitPruned /\ bk[v] = "hdr" /\ st[c] = "full"))
+        THEN HdrLoop(batch, i + 1, c, bk, st)                 \* already have this block (ID)
       ELSE IF Par(b) # cs /\ st[Par(b)] = "none"
         THEN [cs |-> cs, blk |-> bk, sta |-> st, err |-> "missingparent"]
       ELSE IF Cls(b) = "future"
         THEN [cs |-> cs, blk |-> bk, sta |-> st, err |-> "future"]
       ELSE IF Cls(b) = "badhdr"
         THEN [cs |-> cs, blk |-> bk, sta |-> st, err |-> "invalid"]
-      ELSE HdrLoop(batch, i + 1, b, [bk EXCEPT ![b] = "body"], [st EXCEPT ![b] = "partial"])
+      \* stored (again): the LAST body received for an ID that was never applied replaces the
+      \* earlier one -- a poisoned body is healed by an honest re-delivery
+      ELSE HdrLoop(batch, i + 1, c, StoreBody(bk, b, "body"), [st EXCEPT ![c] = "partial"])
 
 Batches == UNION {[1..k -> Nodes \ {1}] : k \in 1..MaxBatch}
 
@@ -216,9 +230,9 @@ ValLoop(batch, i, bk, st) ==
       \* the caller's state is stored as is: the harness supplies the linear ledger's state for a
       \* block of a valid chain and the header-derived one for a (header-valid) descendant of an
       \* invalid block -- a caller that "validated" on top of a block the manager never validated
-      ELSE ValLoop(batch, i + 1, [bk EXCEPT ![b] = "supp"], [st EXCEPT ![b] = IF T.valid[b] THEN "full" ELSE "partial"])
+      ELSE ValLoop(batch, i + 1, StoreBody(bk, b, "supp"), [st EXCEPT ![b] = IF T.valid[b] THEN "full" ELSE "partial"])
 
-ValBatches == {q \in Batches : \A i \in 1..Len(q) : /\ Cls(q[i]) = "ok" /\ H(q[i]) > ReqH
+ValBatches == {q \in Batches : \A i \in 1..Len(q) : /\ Cls(q[i]) = "ok" /\ H(q[i]) > ReqH /\ K(q[i]) = q[i]
                                                       /\ (T.valid[q[i]] \/ ~T.valid[Par(q[i])])
                                                       /\ (i > 1 => Par(q[i]) = q[i - 1])}
 
@@ -251,14 +265,15 @@ RevertStep ==
     /\ UNCHANGED <<t, blk, sta, ret, dur, subs, notif>>
 
 \* ---- applyTip
-ApplyOK(b) == blk[b] \in {"body", "supp"} /\ (blk[b] = "body" => Cls(b) = "ok")
+\* b is an ID (class representative); the body validated is the one stored for it
+ApplyOK(b) == LET v == Ver(blk, b) IN v # 0 /\ blk[v] \in {"body", "supp"} /\ (blk[v] = "body" => Cls(v) = "ok")
 
 ApplyStep ==
     /\ pc.k = "reorg" /\ pc.rev = <<>> /\ pc.app # <<>>
     /\ LET b == Head(pc.app) IN
        /\ ApplyOK(b)
        /\ act' = [op |-> "Apply", b |-> b]
-       /\ blk' = [blk EXCEPT ![b] = "supp"]
+       /\ blk' = [blk EXCEPT ![Ver(blk, b)] = "supp"]
        /\ sta' = [sta EXCEPT ![b] = "full"]
        /\ best' = Append(best, b)
        /\ mem' = b
@@ -425,6 +440,17 @@ HeaderLoopMovesNothing == [][act'.op \in {"Submit", "SubmitV"} => best' = best /
 WorkNeverLost == [][CallEnds => (mem' = pc.old \/ Heavier(mem', pc.old))]_vars
 \* a submission whose adoption would need a non-ok block ends in an error
 ErrIffNeeded == [][CallEnds /\ ~pc.rb /\ ret' = "ok" => \A i \in 1..Len(best') : Cls(best'[i]) = "ok"]_vars
+
+\* ID twins: after an accepted header loop the body stored for an ID that was never applied is the
+\* LAST one received (so an honest re-delivery heals a poisoned body); an applied or pruned ID keeps
+\* the body it was validated with
+LastBodyWins ==
+    [][act'.op = "Submit" /\ ret' \in {"ok", "pending"} =>
+        \A i \in 1..Len(act'.batch) :
+            (\A j \in (i + 1)..Len(act'.batch) : K(act'.batch[j]) # K(act'.batch[i])) =>
+                LET b == act'.batch[i] v == Ver(blk', K(b)) IN
+                v # 0 /\ (v = b \/ (v = Ver(blk, K(b)) /\ blk[v] \in {"supp", "hdr"}))]_vars
+AtMostOneBodyPerID == \A c \in Nodes : T.twins[c] # <<>> => Cardinality({x \in Class(c) : blk[x] # "none"}) <= 1
 
 (* C02 *)
 LedgerSetsAreFold == pc.k = "idle" => SetsOf(led) = SetsOf(FoldOf(best))
